@@ -204,6 +204,21 @@ func (w *World) atomOf(v ssa.Value) (atom, bool) {
 		return mkAtom(w.Canon(x.X), rel, w.Canon(x.Y)), true
 	case *ssa.Call:
 		cc := x.Common()
+		// a one-expression boolean helper of the module: the atom of what it returns
+		if f := cc.StaticCallee(); f != nil && len(w.inlineEnv) < 3 && isBoolType(x.Type()) && !w.noHelperAtoms {
+			if res := w.simpleHelper(f); res != nil && len(f.Params) == len(cc.Args) {
+				env := map[*ssa.Parameter]string{}
+				for i, p := range f.Params {
+					env[p] = w.Canon(cc.Args[i])
+				}
+				w.inlineEnv = append(w.inlineEnv, env)
+				a, ok := w.atomOf(res)
+				w.inlineEnv = w.inlineEnv[:len(w.inlineEnv)-1]
+				if ok {
+					return a, true
+				}
+			}
+		}
 		if f := cc.StaticCallee(); f != nil && f.Pkg != nil {
 			pk := f.Pkg.Pkg.Path()
 			switch {
@@ -268,7 +283,14 @@ func (w *World) newFactEval(next func(ssa.Value) (bool, bool), facts ...atom) *f
 }
 
 func (fe *factEval) eval(v ssa.Value) (bool, bool) {
-	if a, ok := fe.w.atomOf(v); ok {
+	// the condition as written, and with one-expression helpers replaced by what they return
+	for _, plain := range []bool{true, false} {
+		fe.w.noHelperAtoms = plain
+		a, ok := fe.w.atomOf(v)
+		fe.w.noHelperAtoms = false
+		if !ok {
+			continue
+		}
 		for i, f := range fe.facts {
 			fr, ok := f.relFor(a)
 			if !ok {
